@@ -1,7 +1,7 @@
 #!/bin/bash
 # usage: try_refactor.sh <n> [props...] — applies a benign-refactor patch to /repo, runs the checks (all if none named), undoes it
 N=$1; shift
-git -C /repo apply /tmp/refactors/$N/patch.diff || { echo "patch does not apply"; exit 2; }
+git -C /repo apply ${REFDIR:-/verif/refactors}/$N/patch.diff || { echo "patch does not apply"; exit 2; }
 cd /verif
 if [ $# -eq 0 ]; then ./run_all.sh quick; else for p in "$@"; do ./check $p quick | grep "^  rule=\|^$p" | cut -c1-330; done; fi
 git -C /repo checkout -- . ; git -C /repo clean -fdq; git -C /repo status --short | head -3
